@@ -193,12 +193,16 @@ def items(tier, seed):
         # three iterators: shared state lives in the 'stateful' views, the others are pure generators
         out.append({'op': o.name, 'n': n3, 'k': 3, 'warm': 'cold', 'bound': 2 if stateful else 1})
         if tier == 'thorough':
-            out.append({'op': o.name, 'n': n2 + 1, 'k': 2, 'warm': 'cold', 'bound': None})
+            heavy = ('b1' in o.name or 'b2' in o.name or 'io' in o.tags or len(o.kinds) > 1)   # ms per node
+            if 'expand' not in o.tags:
+                out.append({'op': o.name, 'n': n2 + 1, 'k': 2, 'warm': 'cold', 'bound': None})
             for warm in WARM:
-                out.append({'op': o.name, 'n': n3, 'k': 3, 'warm': warm, 'bound': 3})
+                out.append({'op': o.name, 'n': n3, 'k': 3, 'warm': warm,
+                            'bound': 3 if (warm == 'cold' or not heavy) else 2})
             if stateful:
                 out.append({'op': o.name, 'n': 1, 'k': 3, 'warm': 'cold', 'bound': None})
-                out.append({'op': o.name, 'n': 2, 'k': 3, 'warm': 'cold', 'bound': 5})
+                if not heavy and 'expand' not in o.tags:
+                    out.append({'op': o.name, 'n': 2, 'k': 3, 'warm': 'cold', 'bound': 5})
     k = seed % max(1, len(out))
     return out[k:] + out[:k]
 
